@@ -9,6 +9,7 @@ import (
 	"os"
 	"strconv"
 	"strings"
+	"time"
 
 	"github.com/NethermindEth/juno/db"
 	"github.com/NethermindEth/juno/db/dbutils"
@@ -889,8 +890,15 @@ func main() {
 	hx.Must(err)
 	bk := &backends{mem: memory.New(), p2: p2, p1: p1}
 
+	shrinkUntil := time.Now().Add(90 * time.Second) // total shrinking budget of one run
 	report := func(ops []Op, v *verdict) {
-		small := shrink(or, bk, ops, v.class)
+		if c.Reported(v.class) {
+			return // this class already has its (shrunk) replay
+		}
+		small := ops
+		if time.Now().Before(shrinkUntil) {
+			small = shrink(or, bk, ops, v.class)
+		}
 		v2, shape, outs := evalCase(or, bk, small)
 		if v2 != nil {
 			v = v2
